@@ -60,6 +60,40 @@ DESC = {
  "C19-2": "repair-aware materialisation checks a new triple only against matches involving it in all_facts (triple matching two premises of one constraint)",
  "C19-3": "repair search restricted to facts whose predicate occurs as a constant in a constraint (variable-predicate constraints)",
 }
+
+DESC.update({
+ "C01r2-1": "top-level DISTINCT under ORDER BY becomes a dedup of neighbouring rows (keys not covering the projection)",
+ "C01r2-2": "a scan on a predicate the cached statistics have not seen is planned as the empty relation (stale statistics after API writes)",
+ "C01r2-3": "the duplicate filter of a merged default graph (several FROM) is shared across incoming rows of one scan call",
+ "C02r2-1": "stale statistics prune a GRAPH <g> block at plan time (second variant, via fixed_graph_is_visible)",
+ "C02r2-2": "merged-default-graph `seen` set never cleared between rows (bind/star join sides, thread-count dependent)",
+ "C02r2-3": "sub-select DISTINCT becomes an adjacent-row dedup when ORDER BY is present (plan-dependent duplicates)",
+ "C03r2-1": "repeated WHERE solutions are instantiated once (identical solutions must still get distinct blank nodes)",
+ "C03r2-2": "one un-instantiable template quad discards the whole solution (collect::<Option<..>> short-circuit)",
+ "C03r2-3": "deletions \\ insertions and insertions \\ deletions applied instead of delete-then-insert",
+ "C05r2-1": "semi-naive pushes filters down onto partial bindings (variable-variable filter evaluated before its second variable is bound)",
+ "C05r2-2": "hash join binds the predicate variable before subject/object: (?s ?v ?v) matches every triple",
+ "C05r2-3": "parallel strategy skips the second-premise role of a delta fact that already matched the first premise",
+ "C06r2-1": "re-queue set seeded with the current delta: a fact improved in the round in which it is a trigger is not re-queued",
+ "C06r2-2": "first-derivation test uses has_explicit_tag: an implicit tag `one` is overwritten by a later uncertain derivation",
+ "C06r2-3": "loop over a rule's conclusions breaks when update_disjunction reports no change for one head",
+ "C10r2-1": "ISTREAM remembered set only grows (second variant)",
+ "C10r2-2": "multi-thread worker coalesces consecutive queued firings with the same triple set (wrong for RSTREAM)",
+ "C10r2-3": "queue to the worker bounded to 128 with try_send (second variant; blocking send kept in flush)",
+ "C11r2-1": "window processor evicts previous \\ current and inserts current \\ previous but tracks only inserted triples (stale triple after an even number of firings)",
+ "C11r2-2": "natural_join as a hash join with a blank-joined key (second variant)",
+ "C11r2-3": "WINDOW blocks paired with declarations by position (second variant, builder.rs)",
+ "C13r2-1": "Turtle prefix declaration no longer replaces an existing binding",
+ "C13r2-2": "N-Quads graph label sticks to later label-less lines (second variant)",
+ "C13r2-3": "N-Triples loader trims only the end of a line before the comment test: an indented comment becomes a triple",
+ "C16r2-1": "hex-digit scan before &hexadecimal[..digits] removed in sparql_quoted_literal (panic on multi-byte char, +041 accepted)",
+ "C16r2-2": "# comments end only at LF (second variant)",
+ "C16r2-3": "keyword look-ahead after a dangling `;` becomes case-sensitive (`; graph` read as a predicate)",
+ "C17r2-1": "missing-prefix diagnostic slices the lower-cased copy with offsets of the original (case mapping changes UTF-8 length: Kelvin sign)",
+ "C17r2-2": "FROM NAMED of a SELECT registers graphs in the catalog (second variant, build_dataset_view)",
+ "C17r2-3": "error_offset replaced by nom::Offset::offset: an error slice outside the request (static \"\" after a trailing comment) underflows",
+})
+
 S = "/verif/seeded"
 print("| id | change (written by an independent sub-agent from the property text alone) | first run of the check | now |")
 print("|---|---|---|---|")
